@@ -93,6 +93,9 @@ void harness(void)
 	long long want = orc_daynum(y, m, d);
 # if defined SHIFTD
 	ASSUME(in.n >= -NMAX && in.n <= NMAX && in.n != 0);
+#  if defined NMIN
+	ASSUME(in.n <= -NMIN || in.n >= NMIN);
+#  endif
 	sh = (echs_shift_t)((int)in.n * 65536);
 	want += in.n;
 # else
